@@ -40,6 +40,8 @@ def run(ctx):
             for _ in range(per_tree):
                 gk = r.sample(GKEYS, r.range(1, 2))
                 aggs = r.sample(AGGS, r.range(1, 3))
+                # the aggregated expression: a plain column, or computed per entry
+                arg = r.choice(["size", "size", "length(name)", "size + 1", "size * 2 + hardlinks"])
                 where = r.choice(["", "", " where size > 0", " where is_file = true"])
                 order = ""
                 ordspec = None
@@ -54,8 +56,8 @@ def run(ctx):
                     ordspec = None
                     shown = r.sample(gk, r.range(0, len(gk) - 1))
                     shown = [k for k in gk if k in shown]
-                    hq = "select %s from .%s group by %s into list" % (", ".join(shown + ["%s(size)" % a for a in aggs]), where, ", ".join(gk))
-                    hqrows = "select %s, size from .%s into list" % (", ".join(gk), where)
+                    hq = "select %s from .%s group by %s into list" % (", ".join(shown + ["%s(%s)" % (a, arg) for a in aggs]), where, ", ".join(gk))
+                    hqrows = "select %s, %s from .%s into list" % (", ".join(gk), arg, where)
                     ctx.case((t, hq))
                     hw = len(shown) + len(aggs)
                     m, himpl = corr.run_case(ctx, snap, [hq], fmt="list", ncols=hw)
@@ -82,11 +84,11 @@ def run(ctx):
                                                 "got": [[c.decode("utf-8", "replace") for c in rw] for rw in gotrows[:4]],
                                                 "want": [[c.decode("utf-8", "replace") for c in rw] for rw in wantrows[:4]]})
                     continue
-                sel_items = gk + ["%s(size)" % a for a in aggs]
+                sel_items = gk + ["%s(%s)" % (a, arg) for a in aggs]
                 if ordspec:
                     order = " order by %s%s" % (sel_items[ordspec[0]], " desc" if ordspec[1] else "")
                 q = "select %s from .%s group by %s%s into list" % (", ".join(sel_items), where, ", ".join(gk), order)
-                qrows = "select %s, size from .%s into list" % (", ".join(gk), where)
+                qrows = "select %s, %s from .%s into list" % (", ".join(gk), arg, where)
                 ctx.case((t, q))
                 m, impl = corr.run_case(ctx, snap, [q], fmt="list", ncols=len(sel_items))
                 rr = common.run_cli([qrows], cwd=snap.root, scratch=scratch)
